@@ -106,7 +106,7 @@ func init() {
 			})
 		})
 	register("C07",
-		"Decides, for all configured periods: a lookup in hit-for-pass state is never queued and never served a response; the marker always gets a period >= 1 (the default when the configured one is <= 0) added to the clock; it lapses through the same expiry test as hits, and that test keeps the entry through its expiry second (expired iff expiredAt < now), so the period is not cut short; the configured period is converted per cache (no value carried over from the previous cache's conversion), is what the fetcher passes and is kept in seconds (never a time.Duration squeezed into the int); the record is saved only after the entry's final state is set, and always when a store is configured (a marker without a response included), with a store lifetime that is never known to be <= 0; non-fetcher requests never complete (extend) the entry; hit-for-pass requests are forwarded once and reach the upstream with their headers untouched; no lock of the server is held across the upstream call; the upstream transport puts no cap on connections per host or streams per connection (forwarded requests do not queue behind one another inside net/http). Every entry is built with a lock allocated for it and no entry is ever copied as a value, so requests on one key queue only behind that key. Outside the purge nothing deletes a persisted record (no eviction hook takes the marker's stored copy with it). Timed histories are not decided.",
+		"Decides, for all configured periods: a lookup in hit-for-pass state is never queued and never served a response; the marker always gets a period >= 1 (the default when the configured one is <= 0) added to the clock; it lapses through the same expiry test as hits, and that test keeps the entry through its expiry second (expired iff expiredAt < now), so the period is not cut short; the configured period is converted per cache (no value carried over from the previous cache's conversion), is what the fetcher passes and is kept in seconds (never a time.Duration squeezed into the int); the record is saved only after the entry's final state is set, and always when a store is configured (a marker without a response included), with a store lifetime that is never known to be <= 0; non-fetcher requests never complete (extend) the entry; hit-for-pass requests are forwarded once and reach the upstream with their headers untouched; no lock of the server is held across the upstream call; the upstream transport puts no cap on connections per host or streams per connection (forwarded requests do not queue behind one another inside net/http). Every entry is built with a lock allocated for it and no entry is ever copied as a value, so requests on one key queue only behind that key. Outside the purge nothing deletes a persisted record (no eviction hook takes the marker's stored copy with it). The marker's default period is used only where the period passed in is known to be <= 0, and the converter hands the configured seconds on as parsed. Timed histories are not decided.",
 		nil, func(c *Ctx) {
 			withAnchors(c, func(a *serverAnchors) {
 				ruleLookup(c, a.cacheA, set("state-determined", "registration", "hit-data", "expiry-applied", "expiry-exact", "invariant-expiry", "returned-status"))
@@ -124,10 +124,11 @@ func init() {
 				ruleConverters(c)
 				ruleEntryOwnLock(c)
 				ruleRecordDeletedOnlyByPurge(c)
+				rulePeriodKept(c)
 			})
 		})
 	register("C08",
-		"Decides the safety clauses: a record is read from the store only on the first lookup of an unknown entry; it is adopted all-or-nothing, only as hit/hit-for-pass with a non-zero expiry (hit with a response); pike's own expiry test is applied to the adopted expiry before the state is served; absolute createdAt/expiredAt are what is written and restored, each number written as the field stands and stored as read; nothing changes the entry's state after the call that saves it; the status numbers keep the meaning records already on disk give them; no function outside the verified ones (an eviction hook, say) writes a live entry or a published response; the body of a restored entry is recovered from a stored variant whenever its raw body is empty (a restored record carries an empty, non-nil raw body); each back end's Get, Set and Delete address one and the same record for a key; adoption does not depend on the decoded response's content (empty bodies are valid). Badger is opened with its directory lock, on disk and writable; NewStore looks up, opens and registers a store in one critical section of its package lock and gives the lock back on every return. Outside the purge nothing deletes a persisted record; every successful path of the record writer emits the same sequence of elements and every successful path of the reader consumes the same sequence; the store registry is looked up by the URL, never searched. The crash-point quantifier (what the store's files contain after a kill) is not applicable to static analysis.",
+		"Decides the safety clauses: a record is read from the store only on the first lookup of an unknown entry; it is adopted all-or-nothing, only as hit/hit-for-pass with a non-zero expiry (hit with a response); pike's own expiry test is applied to the adopted expiry before the state is served; absolute createdAt/expiredAt are what is written and restored, each number written as the field stands and stored as read; nothing changes the entry's state after the call that saves it; the status numbers keep the meaning records already on disk give them; no function outside the verified ones (an eviction hook, say) writes a live entry or a published response; the body of a restored entry is recovered from a stored variant whenever its raw body is empty (a restored record carries an empty, non-nil raw body); each back end's Get, Set and Delete address one and the same record for a key; adoption does not depend on the decoded response's content (empty bodies are valid). Badger is opened with its directory lock, on disk and writable; NewStore looks up, opens and registers a store in one critical section of its package lock and gives the lock back on every return. Outside the purge nothing deletes a persisted record; every successful path of the record writer emits the same sequence of elements and every successful path of the reader consumes the same sequence; the store registry is looked up by the URL, never searched. The redis client gets address list, db, password and master name on every path; the age reported for an entry is computed from persisted fields only. The crash-point quantifier (what the store's files contain after a kill) is not applicable to static analysis.",
 		nil, func(c *Ctx) {
 			withAnchors(c, func(a *serverAnchors) {
 				ruleLookup(c, a.cacheA, set("state-determined", "load-on-first-lookup", "load-only-when-unknown", "expiry-applied", "invariant-expiry", "hit-data"))
@@ -156,10 +157,12 @@ func init() {
 				ruleBadgerOpenOptions(c)
 				ruleNewStoreLock(c)
 				ruleRecordDeletedOnlyByPurge(c)
+				ruleRedisOptionsUnconditional(c)
+				ruleAge(c, a.cacheA)
 			})
 		})
 	register("C10",
-		"Decides that store failures cannot reach clients or strand waiters: a failed, truncated or impossible record leaves the live entry untouched (all-or-nothing adoption) and the lookup continues as a miss; every completion path drains the waiters and sets the state whatever the store write returns; the fetcher's ticket is always discharged; whatever expiry a restored record carries goes through the same expiry test as any entry (no sign or value of it is exempt); the record decoders contain no panicking-by-contract call, explicit panic or unchecked data-sized allocation and every index / fixed-width read is provably inside the data (a panic under the entry lock would wedge the key); a purge deletes the persisted record while still holding the shard lock and never takes the entry lock; the lookup never writes to the store (memory hits do not wait for it); a store constructor hands out a store only with a nil error; the loader calls nothing that takes an entry lock. NewStore returns its lock on every path (an open that fails does not wedge the next one), and the error of opening a store reaches no result, branch or panic of package main: the rest of an update is applied whatever the store does. The record reader consumes the same sequence of elements on every successful path, so a block that is not decoded is still skipped and a good record cannot be misread into an immortal expiry. Slow calls and flipped body bits are not decided.",
+		"Decides that store failures cannot reach clients or strand waiters: a failed, truncated or impossible record leaves the live entry untouched (all-or-nothing adoption) and the lookup continues as a miss; every completion path drains the waiters and sets the state whatever the store write returns; the fetcher's ticket is always discharged; whatever expiry a restored record carries goes through the same expiry test as any entry (no sign or value of it is exempt); the record decoders contain no panicking-by-contract call, explicit panic or unchecked data-sized allocation and every index / fixed-width read is provably inside the data (a panic under the entry lock would wedge the key); a purge deletes the persisted record while still holding the shard lock and never takes the entry lock; the lookup never writes to the store (memory hits do not wait for it); a store constructor hands out a store only with a nil error; the loader calls nothing that takes an entry lock. NewStore returns its lock on every path (an open that fails does not wedge the next one), and the error of opening a store reaches no result, branch or panic of package main: the rest of an update is applied whatever the store does. The record reader consumes the same sequence of elements on every successful path, so a block that is not decoded is still skipped and a good record cannot be misread into an immortal expiry. The header block is decoded by a whole-input decoder (a block damaged after its first value is a miss), and no decoder asserts a type without the comma-ok form. Slow calls and flipped body bits are not decided.",
 		nil, func(c *Ctx) {
 			withAnchors(c, func(a *serverAnchors) {
 				ruleStoreLoadAtomic(c, a.cacheA)
@@ -184,6 +187,7 @@ func init() {
 				ruleNewStoreLock(c)
 				ruleStoreOpenErrorLocal(c)
 				ruleLayout(c)
+				ruleDecodersWholeInput(c)
 			})
 		})
 	register("C06",
@@ -206,6 +210,7 @@ func init() {
 				ruleStoreSiblings(c)
 				ruleEntryWriters(c, a.cacheA)
 				ruleEntryContainers(c, a.cacheA)
+				ruleRewriteChain(c)
 				ruleCacheMiddleware(c, a, set("entry-of-request-key", "hit-serves-stored"))
 			})
 		})
@@ -247,7 +252,7 @@ func init() {
 			})
 		})
 	register("C05",
-		"Decides label/bytes agreement and provenance on every path: each encoding label handed to a client is paired with the stored variant of that coding, the raw body, or a transcode of the raw body; the raw body is RawBody, else gunzip(GzipBody), else brotli-decode(BrBody); upstream bodies are filed under exactly the variant their encoding names and every other documented encoding is decoded by its own codec; Fill writes label, body, status and header of one negotiation and, after merging the stored header, sets nothing but Content-Encoding; the stored header is a deep copy minus only the fields pike recomputes; pre-compression drops the raw body only when both variants exist; the lz4 destination covers the format's maximum expansion; the five content-coding constants carry the documented wire names; the upstream transport and the client-facing server set no header-size cap or read/write deadline that would replace the upstream's answer; the cache key keeps the request method, so a body-less answer to HEAD is never what a GET is served. After the upstream has answered, the proxy handler returns no error of its own before the response is built. Byte-identity of codec round trips is not decidable statically.",
+		"Decides label/bytes agreement and provenance on every path: each encoding label handed to a client is paired with the stored variant of that coding, the raw body, or a transcode of the raw body; the raw body is RawBody, else gunzip(GzipBody), else brotli-decode(BrBody); upstream bodies are filed under exactly the variant their encoding names and every other documented encoding is decoded by its own codec; Fill writes label, body, status and header of one negotiation and, after merging the stored header, sets nothing but Content-Encoding; the stored header is a deep copy minus only the fields pike recomputes; pre-compression drops the raw body only when both variants exist; the lz4 destination covers the format's maximum expansion; the five content-coding constants carry the documented wire names; the upstream transport and the client-facing server set no header-size cap or read/write deadline that would replace the upstream's answer; the cache key keeps the request method, so a body-less answer to HEAD is never what a GET is served. After the upstream has answered, the proxy handler returns no error of its own before the response is built. A stored compressed variant is only ever set, never cleared (the raw body may already be gone). Byte-identity of codec round trips is not decidable statically.",
 		nil, func(c *Ctx) {
 			withAnchors(c, func(a *serverAnchors) {
 				ruleDecisionTable(c)
@@ -269,10 +274,11 @@ func init() {
 				ruleKey(c)
 				ruleResponder(c, a)
 				ruleContextKeys(c, a)
+				ruleVariantsNeverDropped(c)
 			})
 		})
 	register("C13",
-		"Decides the negotiation logic completely: the function from (accept-br, accept-gzip, has-br, has-gzip, should-compress) to (label, body provenance) is extracted from the code's paths and compared with the documented decision list on all 32 cells, with determinism; should-compress is false iff all variants are <= the minimum length and otherwise the content-type filter (default when unset) decides; cacheable responses are compressed once with the best-compression profile before publication and nowhere else; each response carries the server's compress settings, and a live update computes those settings from the option exactly as the constructor does (a removed filter falls back to the default); no library middleware that rewrites responses is installed in the proxying chain; the filter is compiled with the parser its validator uses and per server (nothing carried over from the previous server's conversion). The built-in default filter is a plain list of words matched anywhere in the content type (no assertion, repetition or class) and covers the documented words. Pre-compression gives up only after it has asked for the raw body, which is recovered from a stored variant, so a response that arrived compressed still gets its other variant when stored. Substring matching of Accept-Encoding tokens and q-values are outside the statement.",
+		"Decides the negotiation logic completely: the function from (accept-br, accept-gzip, has-br, has-gzip, should-compress) to (label, body provenance) is extracted from the code's paths and compared with the documented decision list on all 32 cells, with determinism; should-compress is false iff all variants are <= the minimum length and otherwise the content-type filter (default when unset) decides; cacheable responses are compressed once with the best-compression profile before publication and nowhere else; each response carries the server's compress settings, and a live update computes those settings from the option exactly as the constructor does (a removed filter falls back to the default); no library middleware that rewrites responses is installed in the proxying chain; the filter is compiled with the parser its validator uses and per server (nothing carried over from the previous server's conversion). The built-in default filter is a plain list of words matched anywhere in the content type (no assertion, repetition or class) and covers the documented words. Pre-compression gives up only after it has asked for the raw body, which is recovered from a stored variant, so a response that arrived compressed still gets its other variant when stored. Nothing but the proxy step edits the client's request header, so Accept-Encoding reaches the negotiation as the client sent it. Substring matching of Accept-Encoding tokens and q-values are outside the statement.",
 		nil, func(c *Ctx) {
 			withAnchors(c, func(a *serverAnchors) {
 				ruleDecisionTable(c)
@@ -292,10 +298,11 @@ func init() {
 				ruleCtorUpdateAgree(c)
 				ruleDefaultFilter(c)
 				ruleCompressFromAnyVariant(c)
+				ruleRequestHeaderWrites(c)
 			})
 		})
 	register("C12",
-		"Decides stream finalisation order (the compressing writer is closed on every successful path and the buffer is not read before that), level clamping for every int (the value reaching gzip.NewWriterLevel is in [-2,9], brotli's in [0,11]), propagation of every codec library error, the lz4 destination bound (a short-buffer failure is final only at 255 x input) that the lz4 retry loop has a feasible exit while the short-buffer error persists (no hang on malformed blocks), the decoder dispatch, that pike's own decoder code has no Must* call, explicit panic, allocation sized by an unchecked number taken from the stream or index that is not provably inside the data, that the five decoders are reached under the documented wire names, and that the zstd decoder is built without options that reject valid frames or whose value is taken from the machine (GOMAXPROCS, environment), that encoders write into an empty buffer, and that the stream decoders share no mutable package-level state. On every successful path a stream encoder hands its writer the input parameter itself, exactly once (no pieces cut by computed offsets). No codec library call is handed the same buffer as source and destination. That the codec libraries are exact inverses for every byte string and themselves never panic on malformed input is behaviour of third-party code: not applicable to static analysis.",
+		"Decides stream finalisation order (the compressing writer is closed on every successful path and the buffer is not read before that), level clamping for every int (the value reaching gzip.NewWriterLevel is in [-2,9], brotli's in [0,11]), propagation of every codec library error, the lz4 destination bound (a short-buffer failure is final only at 255 x input) that the lz4 retry loop has a feasible exit while the short-buffer error persists (no hang on malformed blocks), the decoder dispatch, that pike's own decoder code has no Must* call, explicit panic, allocation sized by an unchecked number taken from the stream or index that is not provably inside the data, that the five decoders are reached under the documented wire names, and that the zstd decoder is built without options that reject valid frames or whose value is taken from the machine (GOMAXPROCS, environment), that encoders write into an empty buffer, and that the stream decoders share no mutable package-level state. On every successful path a stream encoder hands its writer the input parameter itself, exactly once (no pieces cut by computed offsets). No codec library call is handed the same buffer as source and destination. No decoder asserts a type without the comma-ok form; the compressing writers write into a growing bytes.Buffer. That the codec libraries are exact inverses for every byte string and themselves never panic on malformed input is behaviour of third-party code: not applicable to static analysis.",
 		nil, func(c *Ctx) {
 			ruleEncoders(c)
 			ruleLevelApplied(c)
@@ -316,9 +323,10 @@ func init() {
 			ruleCodecNoAlias(c)
 		})
 	register("C09",
-		"Decides writer/reader layout agreement for both record types (element kinds, widths, order and the field each element belongs to, every variable-length element preceded by its own length), that every read is bounded (fixed-width reads fail on short input, variable reads are checked against 0 and the remaining length), that no allocation in a decoder is sized by record data and no decoder calls a panicking-by-contract function (Must*) on record data, that every index and fixed-width byte-order read in a decoder is inside the data by the comparisons made before it, that the loader accepts every record the completions write (adoption depends only on status, expiry and, for a hit, the presence of a response, not on its content; markers with and without a response are taken), that a record cut anywhere fails to decode (the tail is a checked read), that encoded records are freshly allocated, that integer writers and readers agree on width and byte order, that the persisted status numbers are the ones records on disk carry, that String() of a decoded status cannot index outside its table, that a record saved without a content-type filter is restored without one, and that decoding keeps no package-level state (the same record always decodes the same way). What the writer marshals is the entry's field as it stands, and the reader puts no constant of its own into a decoded field. Every successful writer path emits, and every successful reader path consumes, the same sequence of elements (no element is conditional on one side only). Exact value round-trip of contents (e.g. JSON re-encoding of non-UTF-8 header values) is value semantics of libraries and not decided.",
+		"Decides writer/reader layout agreement for both record types (element kinds, widths, order and the field each element belongs to, every variable-length element preceded by its own length), that every read is bounded (fixed-width reads fail on short input, variable reads are checked against 0 and the remaining length), that no allocation in a decoder is sized by record data and no decoder calls a panicking-by-contract function (Must*) on record data, that every index and fixed-width byte-order read in a decoder is inside the data by the comparisons made before it, that the loader accepts every record the completions write (adoption depends only on status, expiry and, for a hit, the presence of a response, not on its content; markers with and without a response are taken), that a record cut anywhere fails to decode (the tail is a checked read), that encoded records are freshly allocated, that integer writers and readers agree on width and byte order, that the persisted status numbers are the ones records on disk carry, that String() of a decoded status cannot index outside its table, that a record saved without a content-type filter is restored without one, and that decoding keeps no package-level state (the same record always decodes the same way). What the writer marshals is the entry's field as it stands, and the reader puts no constant of its own into a decoded field. Every successful writer path emits, and every successful reader path consumes, the same sequence of elements (no element is conditional on one side only). The reader puts no package-level object into a decoded field and decodes the header block with a decoder that rejects trailing bytes. Exact value round-trip of contents (e.g. JSON re-encoding of non-UTF-8 header values) is value semantics of libraries and not decided.",
 		nil, func(c *Ctx) {
 			ruleLayout(c)
+			ruleDecodersWholeInput(c)
 			ruleFilterRoundTrip(c)
 			ruleWireConstants(c)
 			ruleDecoderStateless(c, map[string]bool{"cache": true})
@@ -351,7 +359,7 @@ func init() {
 			})
 		})
 	register("C15",
-		"Decides which request state the proxy middleware changes before the upstream call and that each change is undone on every exit after it: on a cold (fetching) request If-None-Match, If-Modified-Since, Range and If-Range are removed or known absent at the upstream call, on every other request they are untouched; every header the middleware removed or overrode (incl. Accept-Encoding) is set back to the value read before; the upstream's Accept-Encoding override is exactly the configured value and is applied whenever one is configured (also when the client sent no Accept-Encoding); the location's configured request headers and query parameters are added next to the client's own (never set over, assigned or deleted, and added whatever the client or upstream already sent; the query is written back on every path and built on the client's own); every wildcard of a rewrite rule becomes a capture group that also matches an empty remainder and each rule is matched against what the previous rules produced; configured header and query values are used as written (only a leading '$' means an environment lookup); the location's response headers are added to the upstream's header before the response (and its header clone) is built; a lifetime is recorded only for fetchers; the original next handler is restored and run once. The configured query and header collections are never read through a first-value accessor, so every configured value of a repeated key is added. What the rewriter writes back into the path is the rules' result (or the path as it came), with nothing applied on top. What the upstream receives byte for byte is not decided.",
+		"Decides which request state the proxy middleware changes before the upstream call and that each change is undone on every exit after it: on a cold (fetching) request If-None-Match, If-Modified-Since, Range and If-Range are removed or known absent at the upstream call, on every other request they are untouched; every header the middleware removed or overrode (incl. Accept-Encoding) is set back to the value read before; the upstream's Accept-Encoding override is exactly the configured value and is applied whenever one is configured (also when the client sent no Accept-Encoding); the location's configured request headers and query parameters are added next to the client's own (never set over, assigned or deleted, and added whatever the client or upstream already sent; the query is written back on every path and built on the client's own); every wildcard of a rewrite rule becomes a capture group that also matches an empty remainder and each rule is matched against what the previous rules produced; configured header and query values are used as written (only a leading '$' means an environment lookup); the location's response headers are added to the upstream's header before the response (and its header clone) is built; a lifetime is recorded only for fetchers; the original next handler is restored and run once. The configured query and header collections are never read through a first-value accessor, so every configured value of a repeated key is added. What the rewriter writes back into the path is the rules' result (or the path as it came), with nothing applied on top. The rewrite rules are kept and applied in a slice, in the configured order. What the upstream receives byte for byte is not decided.",
 		nil, func(c *Ctx) {
 			withAnchors(c, func(a *serverAnchors) {
 				ruleProxyMiddleware(c, a, set("withheld-on-fetch", "restore", "accept-encoding-override", "location-edits-order", "lifetime-plumbing", "lifetime-recorded", "next-restored", "response-built", "forward-once", "upstream-error-propagates"))
@@ -365,6 +373,7 @@ func init() {
 				ruleRewriteMatch(c)
 				ruleRewriteSource(c)
 				ruleRewriteChain(c)
+				ruleRewriteOrdered(c)
 				ruleMergeUnconditional(c)
 				ruleWildcardGroup(c)
 				ruleConfigValueVerbatim(c)
@@ -404,7 +413,7 @@ func init() {
 			ruleResetInputReadOnly(c)
 		})
 	register("C19",
-		"Decides pike's wiring of the health-checked pool (the pool itself lives in the dependency github.com/vicanso/upstream): servers marked backup are registered as backups and only those, each with its own address; policy and ping path reach the pool exactly as configured (the converter copies them unedited); a health check runs before a pool is published and periodically after; a reload never stops the health check of an instance that stays in service; pike never writes into or appends onto the server list the pool hands out; the upstream transport uses no environment proxy; a wrapper around the reverse proxy always calls it; the proxy target is only what the pool's Next() returned (no fixed target is configured, and the picker asks the pool for nothing else, so no request runs or waits for a health check) and 'no healthy server' is a 5xx error. The upstream transport's dialer carries only relative limits (no absolute deadline fixed when the upstream is built), so a server that recovers can be connected to again. The fault-sequence quantifier (up/down timing, recovery, even distribution) is run-time behaviour of the dependency and the network: not applicable.",
+		"Decides pike's wiring of the health-checked pool (the pool itself lives in the dependency github.com/vicanso/upstream): servers marked backup are registered as backups and only those, each with its own address; policy and ping path reach the pool exactly as configured (the converter copies them unedited); a health check runs before a pool is published and periodically after; a reload never stops the health check of an instance that stays in service; pike never writes into or appends onto the server list the pool hands out; the upstream transport uses no environment proxy; a wrapper around the reverse proxy always calls it; the proxy target is only what the pool's Next() returned (no fixed target is configured, and the picker asks the pool for nothing else, so no request runs or waits for a health check) and 'no healthy server' is a 5xx error. The upstream transport's dialer carries only relative limits (no absolute deadline fixed when the upstream is built), so a server that recovers can be connected to again. Every error the proxy step makes up itself has a 5xx status. The fault-sequence quantifier (up/down timing, recovery, even distribution) is run-time behaviour of the dependency and the network: not applicable.",
 		[]string{"github.com/vicanso/upstream: Next() returns only servers whose last health check passed, backups only when no primary is healthy"}, func(c *Ctx) {
 			withAnchors(c, func(a *serverAnchors) {
 				ruleUpstreamCtor(c)
@@ -422,11 +431,12 @@ func init() {
 				ruleTargetPicker(c)
 				ruleUpstreamSwap(c)
 				ruleDialerNoAbsoluteDeadline(c)
+				ruleProxyErrors5xx(c)
 				ruleProxyMiddleware(c, a, set("proxy-resolution", "forward-once"))
 			})
 		})
 	register("C17",
-		"Decides that Validate runs field validation first and checks each of the four reference relations on exactly the (referrer field, referenced name) pair, per referrer, returning its error; that a reference whose run-time lookup can come back nil (the server's cache, the location's upstream) cannot be left empty in an accepted configuration; that the run-time lookups go to the same default registries the reload fills and are made per request with the server's current settings; that each configuration back end reads, writes and watches one and the same location, writes the bytes it is given, and that Read decodes the bytes it read into the configuration it returns; that Write stores the YAML of the configuration only after Validate returned nil, unedited in between, and never reports success without writing; that no configuration field is lost or merged by the YAML/JSON field table, the YAML key of every field is its documented (JSON) key and the shipped pike.yml uses known keys only; that the admin handlers write configuration entries back only as copies of the entries they annotate; that a path accepted by the path validator starts with '/'; that lists of validated structs are validated element-wise (dive) and Validate never reports success from inside one of its loops; that no back-end method rewrites the configured location before using it; that every validate tag is registered and every place that leniently parses a configuration field uses the parser its validator uses (including a value the upstream library parses on pike's behalf). In tags and aliases no bound or custom rule is one side of an \"or\" (the bound would not be enforced); a validator runs no second parser its consumers do not run. Nothing is decoded over the configuration between its validation and the write; applying a configuration publishes one location for each it was given. Quoting behaviour of the YAML library is not decided.",
+		"Decides that Validate runs field validation first and checks each of the four reference relations on exactly the (referrer field, referenced name) pair, per referrer, returning its error; that a reference whose run-time lookup can come back nil (the server's cache, the location's upstream) cannot be left empty in an accepted configuration; that the run-time lookups go to the same default registries the reload fills and are made per request with the server's current settings; that each configuration back end reads, writes and watches one and the same location, writes the bytes it is given, and that Read decodes the bytes it read into the configuration it returns; that Write stores the YAML of the configuration only after Validate returned nil, unedited in between, and never reports success without writing; that no configuration field is lost or merged by the YAML/JSON field table, the YAML key of every field is its documented (JSON) key and the shipped pike.yml uses known keys only; that the admin handlers write configuration entries back only as copies of the entries they annotate; that a path accepted by the path validator starts with '/'; that lists of validated structs are validated element-wise (dive) and Validate never reports success from inside one of its loops; that no back-end method rewrites the configured location before using it; that every validate tag is registered and every place that leniently parses a configuration field uses the parser its validator uses (including a value the upstream library parses on pike's behalf). In tags and aliases no bound or custom rule is one side of an \"or\" (the bound would not be enforced); a validator runs no second parser its consumers do not run. Nothing is decoded over the configuration between its validation and the write; applying a configuration publishes one location for each it was given. A list of configuration entries the admin view rebuilds is allocated with the length of the list it replaces; a server's update applies the same fields its constructor takes. Quoting behaviour of the YAML library is not decided.",
 		nil, func(c *Ctx) {
 			ruleValidateRefs(c)
 			ruleRequiredRefs(c)
@@ -449,9 +459,11 @@ func init() {
 			ruleStoreOpenNonFatal(c)
 			ruleBoundsConjunctive(c)
 			ruleSetPublishesAll(c)
+			ruleStatusListSizedBySource(c)
+			ruleCtorUpdateAgree(c)
 		})
 	register("C20",
-		"Decides lock discipline for all shared mutable state reachable from main (request, purge, admin and reload paths): every access to a guarded field (entry state, shard LRU, server settings, location list) holds the owner's lock in a sufficient mode, locally or through every caller; every lock is released on every return and only by a function that holds it; the lock-order graph is acyclic; fields read without a lock are written only while their object is private to its constructor; a published response is never written; memory from a sync.Pool never escapes into keys, bodies or records; error values (which reach requests through shared package-level sentinels) are written only by the function that built them; no value holding a lock is copied; slices owned by the upstream pool are never written; configuration reloads are invoked synchronously from the single watcher goroutine; the entry lookup is made under the write lock and a woken waiter re-reads under the lock; a registry lookup that can return nil is tested before use; a reload publishes referenced sections before the sections that name them. Each nilable field that closing a server dereferences is guarded by a field set only together with it (a server whose listen failed can be closed). A response object is never overwritten as a whole once built (readers that were handed it keep a consistent generation). Race-detector stress and 'the process does not crash' over schedules are not applicable to static analysis.",
+		"Decides lock discipline for all shared mutable state reachable from main (request, purge, admin and reload paths): every access to a guarded field (entry state, shard LRU, server settings, location list) holds the owner's lock in a sufficient mode, locally or through every caller; every lock is released on every return and only by a function that holds it; the lock-order graph is acyclic; fields read without a lock are written only while their object is private to its constructor; a published response is never written; memory from a sync.Pool never escapes into keys, bodies or records; error values (which reach requests through shared package-level sentinels) are written only by the function that built them; no value holding a lock is copied; slices owned by the upstream pool are never written; configuration reloads are invoked synchronously from the single watcher goroutine; the entry lookup is made under the write lock and a woken waiter re-reads under the lock; a registry lookup that can return nil is tested before use; a reload publishes referenced sections before the sections that name them. Each nilable field that closing a server dereferences is guarded by a field set only together with it (a server whose listen failed can be closed). A response object is never overwritten as a whole once built (readers that were handed it keep a consistent generation). Pike stores to no field of the request or of a URL other than the request's own path and query (the upstream library's shared target URL is never edited). Race-detector stress and 'the process does not crash' over schedules are not applicable to static analysis.",
 		nil, func(c *Ctx) {
 			withAnchors(c, func(a *serverAnchors) {
 				ruleLockset(c)
@@ -480,6 +492,7 @@ func init() {
 				ruleEntryWriters(c, a.cacheA)
 				ruleCloseListenerGuard(c)
 				ruleResponseNeverOverwritten(c)
+				ruleRequestWrites(c)
 			})
 		})
 }
